@@ -233,7 +233,8 @@ def r03e(ctx):
     for role, lst in sorted(forms.items()):
         want = NF().nf(parse_expr(spec[role]))
         for q, n in lst:
-            got = NF().nf(n.value)
+            fenv = {k: v for k, v in local_env(repo.member(q, "fresnel")).items() if k not in ("sin_2", "cos_2", "r_s", "r_p", "t_s", "t_p", "n_1", "n_2", "cos_1", "theta_1")}
+            got = NF(fenv).nf(n.value)
             ctx.check(got.equals(want), "R03e", f"{q}.fresnel", f"{role} has the common normal form `{spec[role]}`", u(n.value), key_detail=f"{role} formula",
                       loc=ctx.loc(repo.cls(q).module, n))
     ctx.analysed["fresnel_instances"] = {k: len(v) for k, v in forms.items()}
@@ -307,7 +308,43 @@ def r03f(ctx):
               str([repr(g) for g in got]), key_detail="normalize")
 
 
+def r03g(ctx):
+    """attenuation pre-computation grid of BasicRayTracePath.propagate: both arms (with / without polarization) build the same grid, and the
+    interpolation grid is symmetric in frequency (-f, 0, +f) because np.interp clamps outside its abscissa."""
+    repo = ctx.repo
+    ctx.rule("R03g", "attenuation_interpolation grid: identical construction in both arms of propagate; symmetric [-flip(logf), 0, logf]; attenuation evaluated on it and "
+             "interpolated on the same abscissa", expected=4, kind="N")
+    q = "pyrex.ray_tracing.BasicRayTracePath"
+    fn = repo.member(q, "propagate")
+    blocks = [n for n in ast.walk(fn) if isinstance(n, ast.If) and u(n.test).replace(" ", "") in ("attenuation_interpolationisNone", "attenuation_interpolationisnotNone")]
+    ctx.check(len(blocks) == 2, "R03g", f"{q}.propagate", "one grid decision per arm (polarized / unpolarized)", f"{len(blocks)} found", key_detail="grid decisions",
+              loc=ctx.loc("pyrex.ray_tracing", fn))
+    if len(blocks) != 2:
+        return
+    from ..core.astutil import canon
+    a, b = canon([blocks[0]]), canon([blocks[1]])
+    ctx.check(a == b, "R03g", f"{q}.propagate", "the frequency grid for the attenuation is built identically in both arms (clone)", "arms differ" if a != b else "", key_detail="grid clone")
+    for i, blk in enumerate(blocks):
+        interp_arm = blk.orelse if "isNone" in u(blk.test).replace(" ", "") and "not" not in u(blk.test) else blk.body
+        st = [x for x in interp_arm if isinstance(x, ast.Assign) and u(x.targets[0]) == "freqs"]
+        ok = len(st) == 1 and is_call(st[0].value, func="np.concatenate")
+        if ok:
+            parts = st[0].value.args[0].elts if isinstance(st[0].value.args[0], (ast.Tuple, ast.List)) else []
+            ok = len(parts) == 3 and u(parts[1]) == "[0]" and isinstance(parts[2], ast.Name) and u(parts[0]) in (f"-np.flipud({parts[2].id})", f"-{parts[2].id}[::-1]", f"np.flipud(-{parts[2].id})")
+        ctx.check(ok, "R03g", f"{q}.propagate", f"[arm {i + 1}] interpolation grid is symmetric: negative mirror, zero, positive log-spaced frequencies", u(st[0].value) if st else "",
+                  key_detail=f"symmetric grid arm {i + 1}", loc=ctx.loc("pyrex.ray_tracing", blk))
+    av = [x for x in ast.walk(fn) if isinstance(x, ast.Assign) and u(x.targets[0]) == "atten_vals"]
+    ok = len(av) == 2 and all(u(x.value) == "self.attenuation(freqs)" for x in av)
+    lams = [x for x in ast.walk(fn) if isinstance(x, ast.Lambda) and any(is_call(c, func="np.interp") for c in ast.walk(x.body))]
+    ok2 = len(lams) == 3
+    for lm in lams:
+        c = [c for c in ast.walk(lm.body) if is_call(c, func="np.interp")][0]
+        ok2 = ok2 and [u(x) for x in c.args] == [lm.args.args[0].arg, "freqs", "atten_vals"]
+    ctx.check(ok and ok2, "R03g", f"{q}.propagate", "the attenuation is evaluated on that grid and interpolated at the filter's frequencies on the same abscissa", "", key_detail="interpolation operands")
+
+
 def run(ctx):
+    ctx.guard(r03g)
     ctx.guard(r03a)
     ctx.guard(r03b)
     ctx.guard(r03c)
@@ -318,6 +355,11 @@ def run(ctx):
 
 SELFTEST = {
     "faults": [
+        {"name": "interpolation grid for non-negative frequencies only (unpolarized arm)", "file": "pyrex/ray_tracing.py",
+         "old": "                    freqs = np.concatenate((-np.flipud(logf), [0], logf))", "new": "                    freqs = np.concatenate(([0], logf))", "occurrence": 1, "rule": "R03g"},
+        {"name": "r_p with the r_s denominator hoisted", "file": "pyrex/ray_tracing.py",
+         "old": "            r_s = (n_1*cos_1 - n_2*cos_2) / (n_1*cos_1 + n_2*cos_2)\n            r_p = (n_2*cos_1 - n_1*cos_2) / (n_2*cos_1 + n_1*cos_2)\n            return r_s, r_p",
+         "new": "            denom = n_1*cos_1 + n_2*cos_2\n            r_s = (n_1*cos_1 - n_2*cos_2) / denom\n            r_p = (n_2*cos_1 - n_1*cos_2) / denom\n            return r_s, r_p", "rule": "R03e"},
         {"name": "p signal not delayed (basic)", "file": "pyrex/ray_tracing.py", "old": "                signal_p.shift(self.tof)\n", "new": "", "occurrence": 1, "rule": "R03b",
          "construct": "BasicRayTracePath"},
         {"name": "exp(+|...|) attenuation", "file": "pyrex/ray_tracing.py", "old": "        return np.exp(-np.abs(self.z_integral(integrand)))", "new": "        return np.exp(np.abs(self.z_integral(integrand)))",
@@ -340,6 +382,9 @@ SELFTEST = {
          "new": "                if sin_2>=1:\n                    cos_2 = np.sqrt(1 - (sin_2)**2)", "occurrence": 1, "rule": "R03e"},
     ],
     "benign": [
+        {"name": "common r_s denominator hoisted (correctly)", "file": "pyrex/ray_tracing.py",
+         "old": "            r_s = (n_1*cos_1 - n_2*cos_2) / (n_1*cos_1 + n_2*cos_2)\n            r_p = (n_2*cos_1 - n_1*cos_2) / (n_2*cos_1 + n_1*cos_2)\n            return r_s, r_p",
+         "new": "            denom = n_1*cos_1 + n_2*cos_2\n            r_s = (n_1*cos_1 - n_2*cos_2) / denom\n            r_p = (n_2*cos_1 - n_1*cos_2) / (n_2*cos_1 + n_1*cos_2)\n            return r_s, r_p"},
         {"name": "shift after filter", "file": "pyrex/ray_tracing.py",
          "old": "                signal_s.shift(self.tof)\n                signal_p.shift(self.tof)\n                signal_s.filter_frequencies(attenuation_s, force_real=True)\n                signal_p.filter_frequencies(attenuation_p, force_real=True)",
          "new": "                signal_s.filter_frequencies(attenuation_s, force_real=True)\n                signal_p.filter_frequencies(attenuation_p, force_real=True)\n                signal_s.shift(self.tof)\n                signal_p.shift(self.tof)",
